@@ -16,6 +16,7 @@ import (
 	"strconv"
 	"strings"
 	"sync"
+	"sync/atomic"
 	"time"
 )
 
@@ -596,6 +597,9 @@ func startWorker(id string) (*workerProc, error) {
 	return &workerProc{cmd, in, bufio.NewReaderSize(out, 1<<20), tb}, nil
 }
 
+// hangGrace is how long past its (cooperative) deadline a job may stay silent before its worker is killed.
+const hangGrace = 300 * time.Second
+
 func runJobs(id string, jobs []Job, workers int) []*JobResult {
 	results := make([]*JobResult, len(jobs))
 	var mu sync.Mutex
@@ -637,7 +641,25 @@ func runJobs(id string, jobs []Job, workers int) []*JobResult {
 					}
 					b, _ := json.Marshal(jobs[i])
 					wp.in.Write(append(b, '\n'))
+					// watchdog: jobs honour their deadline cooperatively; a worker that is still silent long after it
+					// is stuck where no scheduling point is reached (a product loop that spins on real I/O, say)
+					var hung atomic.Bool
+					var watchdog *time.Timer
+					if jobs[i].Deadline > 0 {
+						d := time.Until(time.Unix(jobs[i].Deadline, 0))
+						if d < 0 {
+							d = 0
+						}
+						cur := wp
+						watchdog = time.AfterFunc(d+hangGrace, func() {
+							hung.Store(true)
+							cur.cmd.Process.Kill()
+						})
+					}
 					line, err := wp.out.ReadBytes('\n')
+					if watchdog != nil {
+						watchdog.Stop()
+					}
 					if err == nil {
 						var r JobResult
 						if e := json.Unmarshal(line, &r); e != nil {
@@ -654,6 +676,10 @@ func runJobs(id string, jobs []Job, workers int) []*JobResult {
 					tail := string(wp.errBuf.head) + "\n[...]\n" + string(wp.errBuf.b)
 					wp.errBuf.mu.Unlock()
 					wp = nil
+					if hung.Load() {
+						results[i] = &JobResult{JobID: i, Name: jobs[i].Name, Died: fmt.Sprintf("hung: the job was still running %v after its deadline and was killed (no scheduling point is reached any more: a loop that spins without synchronising, or a blocking call outside the scheduler)\n", hangGrace) + tail}
+						break
+					}
 					if attempt >= 1 {
 						results[i] = &JobResult{JobID: i, Name: jobs[i].Name, Died: tail}
 						break
